@@ -214,8 +214,10 @@ impl AsyncFileSystem for AsyncOverlayFS {
     }
 
     async fn remove_dir(&self, path: &str) -> VfsResult<()> {
-        // Ensure path exists
-        self.read_path(path).await?;
+        // Ensure path exists and is a directory
+        if self.read_path(path).await?.metadata().await?.file_type != VfsFileType::Directory {
+            return Err(VfsErrorKind::Other("Not a directory".into()).into());
+        }
         let write_path = self.write_path(path)?;
         if write_path.exists().await? {
             write_path.remove_dir().await?;
